@@ -22,6 +22,13 @@ import (
 
 type custom struct{ A int }
 
+// nilErr: the classic typed nil - an error value whose Error method faults when somebody calls it unguarded
+type nilErr struct{ msg string }
+
+func (e *nilErr) Error() string { return e.msg }
+
+var typedNilErr *nilErr
+
 var (
 	errVal   = errors.New("e")
 	ptrVal   = &custom{7}
@@ -48,6 +55,8 @@ func panicValue(i int) any {
 		return http.ErrAbortHandler // the sentinel net/http itself treats specially
 	case 8:
 		return io.EOF
+	case 9:
+		return typedNilErr
 	}
 	return nil
 }
@@ -440,16 +449,16 @@ func init() {
 		rc.Assume = append(rc.Assume,
 			"also: WithRecovery(f) followed by WithRecovery(nil) (the last option wins: no recovery), Group.New(..., WithRecovery(nil)) below a group with recovery, and the built-in reporting options WithLogRecovery / WithSLogRecovery / WithWriteRecovery (contained, and the report starts with the panic value exactly as fmt prints it - one string value contains format verbs)",
 			"instances: Router and Group with no recovery / WithRecovery(f) / WithStatusRecovery(500); routers made by Group.New inheriting and overriding the option; routers Added with and without their own option - 10 kinds, one long-lived instance per sequence",
-			"events: 3 normal requests (one of them issues a second request from inside its handler, so two requests are alive at once) and 18 panic sites (handlers for GET/POST/HEAD/params, each middleware layer before and after next, 404, 405, OPTIONS, TRACE, OPTIONS *, group not-found, group Use middleware) x panic values {string, error, int, runtime.Error, struct, pointer, typed nil, http.ErrAbortHandler, io.EOF}",
+			"events: 3 normal requests (one of them issues a second request from inside its handler, so two requests are alive at once) and 18 panic sites (handlers for GET/POST/HEAD/params, each middleware layer before and after next, 404, 405, OPTIONS, TRACE, OPTIONS *, group not-found, group Use middleware) x panic values {string, error, int, runtime.Error, struct, pointer, typed nil, http.ErrAbortHandler, io.EOF, a typed-nil error whose Error method faults}",
 			"all sequences of length <= 2 with all values (quick) and length 3 with two values; thorough: length 3 with all values and length 4 with one (the time budget may end the thorough tier early: the evidence says how many work items were explored)",
 			"with recovery: nothing escapes, the function in force gets the identical value exactly once; every later request is served normally with its own parameters at handler entry and exit; without: the identical value reaches the caller")
 		type plan struct {
 			l    int
 			vals []int
 		}
-		plans := []plan{{2, []int{0, 1, 2, 3, 4, 5, 6, 7, 8}}, {3, []int{0, 3}}}
+		plans := []plan{{2, []int{0, 1, 2, 3, 4, 5, 6, 7, 8, 9}}, {3, []int{0, 3}}}
 		if !rc.Quick() {
-			plans = []plan{{3, []int{0, 1, 2, 3, 4, 5, 6, 7, 8}}, {4, []int{0}}}
+			plans = []plan{{3, []int{0, 1, 2, 3, 4, 5, 6, 7, 8, 9}}, {4, []int{0}}}
 		}
 		var items []c16Item
 		for _, p := range plans {
